@@ -61,13 +61,20 @@ static std::string run_export(const Workload& w, const std::string& dir) {
         case 1: ex->buffer_aec(o.aec, o.st); break;
         case 2: ex->buffer_mm(o.mm, o.st); break;
         case 3: ex->write_block(); break;
-        default: { std::string b; next(b); if (w.okind == 0) ex->rotate_output(b, o.exp); else ex->rotate_output(ofd(b), o.exp); break; }
+        case 4: { std::string b; next(b); if (w.okind == 0) ex->rotate_output(b, o.exp); else ex->rotate_output(ofd(b), o.exp); break; }
+        default: {
+          // a rotation that the library must refuse (destination cannot be opened), caught by the application, followed by a good one
+          try { if (w.okind == 0) ex->rotate_output(std::string("/nonexistent-vf-directory/x"), false); else ex->rotate_output((int)-1, false); outs.push_back("!no-exception"); }
+          catch (const CDNS::CborOutputException&) {}
+          try { std::string b; next(b); if (w.okind == 0) ex->rotate_output(b, false); else ex->rotate_output(ofd(b), false); } catch (const std::exception&) { outs.push_back("!second-rotation-threw"); }
+          break;
+        }
       }
     }
     ex->write_block();
   }
   std::string res;
-  for (auto& p : outs) { std::string b; read_file(p, b); res += std::to_string(b.size()) + ":" + std::to_string(fnv1a(b.data(), b.size())) + ";"; ::unlink(p.c_str()); }
+  for (auto& p : outs) { if (!p.empty() && p[0] == '!') { res += p + ";"; continue; } std::string b; read_file(p, b); res += std::to_string(b.size()) + ":" + std::to_string(fnv1a(b.data(), b.size())) + ";"; ::unlink(p.c_str()); }
   return res;
 }
 static std::string run_read(const Workload& w) {
@@ -142,7 +149,7 @@ static Workload gen_workload(Chooser& c, const std::string& scratch, unsigned si
       unsigned n = (unsigned)c.range(3, 6 + size);
       uint64_t tps = (uint64_t)w.pre.bps[0].sp.tps;
       for (unsigned i = 0; i < n; i++) {
-        ExpOp o; o.kind = (int)c.range(0, 7); if (o.kind > 4) o.kind = 0;
+        ExpOp o; o.kind = (int)c.range(0, 8); if (o.kind > 5) o.kind = 0;
         if (c.coin()) o.st = adapt::lib_stats(gen::gen_stats(c, true));
         if (o.kind == 0) o.qr = adapt::generic_qr(gen::gen_qr(c, pools, tc, tps, ro));
         else if (o.kind == 1) o.aec = adapt::generic_aec(gen::gen_aec(c, pools));
